@@ -56,6 +56,7 @@ DataOf(name, cvs) ==
     [] name = "quad"   -> Sample(PQuad(Len(cvs)), cvs)
     [] name = "idx"    -> [t \in 1..GSize(cvs) |-> R(t * t + 1)]
     [] name = "cidx"   -> [t \in 1..GSize(cvs) |-> <<S(t), S(1 - t * t)>>]
+    [] name = "delta"  -> [t \in 1..GSize(cvs) |-> IF t = 2 THEN R(1) ELSE R(0)]           \* node delta
 PolyOf(name, d) == IF name = "affine" THEN PAffine(d) ELSE <<>>
 
 RECURSIVE SortQ(_)
@@ -116,20 +117,31 @@ Resamples == {RCfg(<<a>>, <<b>>, nm, s) : a \in Spaces1, b \in Spaces1, nm \in {
              \cup ResamplesEq
 
 StepOf(sp) == IF sp.L THEN H(1, sp.n - 1) ELSE H(1, sp.n)      \* (unit interval, L = R)
-DispNames == {"zero", "half", "alt", "minus", "quarter"}
+\* displacement patterns (per axis k, flat C-order node index t); h = grid step of the axis
+\*   zero | half (+h/2: every point on a tie) | minus / plus (exactly one cell: nearest must give the neighbouring node value) |
+\*   alt, quarter (piecewise constant) | smooth (varies from node to node, stays inside the hull + zero-extension zone)
+DispNames == {"zero", "half", "alt", "minus", "plus", "quarter", "smooth"}
 DispAxis(name, sp, k, t) ==
   LET h == StepOf(sp)
   IN  CASE name = "zero"    -> QZero
         [] name = "half"    -> QHalf(h)
         [] name = "alt"     -> IF (t + k) % 2 = 0 THEN QMul(H(1, 4), h) ELSE QMul(H(-1, 2), h)
         [] name = "minus"   -> QNeg(h)
+        [] name = "plus"    -> h
         [] name = "quarter" -> IF k = 1 THEN QMul(H(-1, 4), h) ELSE QMul(H(3, 4), h)
+        [] name = "smooth"  -> QMul(H(((t * (k + 1)) % 5) - 2, 4), h)
 DCfg(src, name, sch, dn) ==
   LET cvs == CvsOf(src)
-  IN  [src |-> src, cvs |-> cvs, f |-> DataOf(name, cvs), fname |-> name, schemes |-> sch, dname |-> dn,
+  IN  [src |-> src, cvs |-> cvs, f |-> DataOf(name, cvs), fname |-> name, poly |-> PolyOf(name, Len(cvs)), schemes |-> sch, dname |-> dn,
        disp |-> [k \in 1..Len(src) |-> [t \in 1..GSize(cvs) |-> DispAxis(dn, src[k], k, t)]]]
-Deforms == {DCfg(<<a>>, nm, s, dn) : a \in Spaces1, nm \in {"idx", "affine"}, s \in Schemes(1), dn \in DispNames}
-           \cup {DCfg(a, nm, s, dn) : a \in Spaces2, nm \in {"idx", "cidx"}, s \in Schemes(2), dn \in DispNames}
+\* non-cubic 3-d shapes: C and F order of the displacement components differ
+Spaces3 == {<<Sp(2, FALSE), Sp(3, TRUE), Sp(2, FALSE)>>, <<Sp(3, TRUE), Sp(2, FALSE), Sp(4, FALSE)>>}
+Schemes3D == IF Big THEN Schemes(3)
+             ELSE {<<"nearest", "nearest", "nearest">>, <<"linear", "linear", "linear">>,
+                   <<"nearest", "linear", "nearest">>, <<"linear", "nearest", "linear">>}
+Deforms == {DCfg(<<a>>, nm, s, dn) : a \in Spaces1, nm \in {"idx", "affine", "delta"}, s \in Schemes(1), dn \in DispNames}
+           \cup {DCfg(a, nm, s, dn) : a \in Spaces2, nm \in {"idx", "cidx", "affine"}, s \in Schemes(2), dn \in DispNames}
+           \cup {DCfg(a, nm, s, dn) : a \in Spaces3, nm \in {"idx", "affine"}, s \in Schemes3D, dn \in DispNames}
 
 MC_Cfgs == CASE MMode = "sample"   -> SampleAll
              [] MMode = "interp1"  -> Interp1
